@@ -817,7 +817,8 @@ func c11CLIError(c *Ctx, o *Obs, r *rand.Rand, cmdline, et, pos string, rep int)
 }
 
 var c11RaceCmds = []string{"compare trees", "compare trees --weighted", "compare trees --binary", "compare trees --rf", "compare trees -l", "compare edges",
-	"compute support fbp", "compute support tbe", "compute support tbe --moved-taxa --per-branches", "compute support classical", "compute support booster", "compute consensus"}
+	"compute support fbp", "compute support tbe", "compute support tbe --moved-taxa --per-branches", "compute support classical", "compute support booster", "compute consensus",
+	"annotate"}
 
 // c11CLIRace runs the shipped command, built with -race, on a well-formed stream with several thread counts:
 // race reports of the child go to the race log of this chunk (the driver parses them), results must equal -t 1.
@@ -842,6 +843,14 @@ func c11CLIRace(c *Ctx, o *Obs, r *rand.Rand, cmdline string, rep int) {
 	for _, th := range []int{1, 2, 8, 16} {
 		args := strings.Fields(cmdline)
 		switch {
+		case args[0] == "annotate":
+			// two inputs read at the same time by two reader goroutines, both full of bracket comments
+			withComments := func(s string) string {
+				return regexp.MustCompile(`\bt[0-9]+\b`).ReplaceAllString(s, "$0[&origin=$0,note=\"a comment of some length\"]")
+			}
+			fi := tmpFile(c, "c11annot-in.nw", withComments(strings.Join(boots, "\n"))+"\n")
+			fc := tmpFile(c, "c11annot-cmp.nw", withComments(refText)+"\n")
+			args = append(args, "-i", fi, "-c", fc)
 		case args[0] == "compare":
 			args = append(args, "-i", fr, "-c", fb)
 		case args[1] == "consensus":
